@@ -220,7 +220,10 @@ def rand_expr(rng, leaves, depth=2, allow_mul=True):
     if r < 0.35:
         return ["+", rand_expr(rng, leaves, depth - 1, allow_mul), rand_expr(rng, leaves, depth - 1, allow_mul)]
     if r < 0.5:
-        return ["-", rand_expr(rng, leaves, depth - 1, allow_mul), rand_expr(rng, leaves, depth - 1, allow_mul)]
+        a, b = rand_expr(rng, leaves, depth - 1, allow_mul), rand_expr(rng, leaves, depth - 1, allow_mul)
+        if a == b:          # x - x would cancel symbolically and silently remove the dependence
+            b = ["sq", b]
+        return ["-", a, b]
     if r < 0.65 and allow_mul:
         return ["*", rand_expr(rng, leaves, depth - 1, allow_mul), rand_expr(rng, leaves, depth - 1, allow_mul)]
     op = rng.choice(["sin", "cos", "tanh", "sq", "rat", "neg"])
